@@ -44,6 +44,13 @@ def cases(tier, seed, args):
             sc['K'] = 3
             sc['iterations'] = max(3, sc['iterations'])
         out.append(dict(t='emtrace', **sc))
+    # inline alignment inside EM with K = 3 / 4 (non-involutive per-bin permutations occur)
+    for i in range(4 if q else 24):
+        sc = mmd.scenario(rng, 'cacgmm', tier)
+        sc.update(regime=['regular', 'separable'][i % 2], init='soft', dtype='float64', iterations=3 + i % 2, saliency=bool(i % 2),
+                  K=3 + i % 2, D=2, N=int(rng.integers(8, 11)), L=[3], wca=[(-3,), (-3, -1)][(i // 2) % 2], wca_type='tuple',
+                  aligner=True, sam=False)
+        out.append(dict(t='emtrace', **sc))
     # cACG normalisation x flooring grid: sizeable floors (the floor is reached on ordinary data) and rank-deficient weights
     for i in range(6 if q else 36):
         sc = mmd.scenario(rng, 'cacgmm', tier)
